@@ -7,6 +7,7 @@
 import MpirProofs.Lemmas.Kernels
 import MpirProofs.Lemmas.DivWord3by2
 import Mpir.Model.SbDiv
+import Mpir.Model.DivZ
 namespace Mpir.SbDiv
 open Mpir Mpir.DivWord
 
@@ -549,5 +550,24 @@ theorem sb_div_qr_correct (n d : List Nat) (dinv : Nat) (hdn : 3 ≤ d.length) (
   subst hsplit
   subst hlen
   exact sb_div_qr_split n dlo d0 d1 dinv hnn hn hdlo hd0 hd1 hnorm hdinv
+
+/-! ### link to the value-level contract `DivZ.mpnDivQr` -/
+
+theorem toLimbs_succ (k v : Nat) : toLimbs (k + 1) v = v % B :: toLimbs k (v / B) := rfl
+
+theorem toLimbs_val_add : ∀ (l : List Nat) (h : Nat), Limbs l → toLimbs l.length (val l + B ^ l.length * h) = l
+  | [], _, _ => rfl
+  | x :: xs, h, hl => by
+    have ⟨hx, hxs⟩ := Limbs_cons.mp hl
+    have hB := B_pos
+    rw [List.length_cons, toLimbs_succ, val_cons, pow_succ]
+    have e : x + B * val xs + B ^ xs.length * B * h = x + B * (val xs + B ^ xs.length * h) := by ring
+    rw [e, Nat.add_mul_mod_self_left, Nat.mod_eq_of_lt hx, Nat.add_mul_div_left _ _ hB,
+      Nat.div_eq_of_lt hx, Nat.zero_add, toLimbs_val_add xs h hxs]
+
+theorem normalised_of_top (dlo : List Nat) (d0 d1 : Nat) (h : B / 2 ≤ d1) :
+    DivZ.normalised (dlo ++ [d0, d1]) = true := by
+  unfold DivZ.normalised
+  simp [h]
 
 end Mpir.SbDiv
